@@ -134,7 +134,7 @@ Proof.
   unfold with_scope in Hstep. destruct (nth_error (st_scs st) k) as [s|] eqn:Hk; [|discriminate].
   destruct (realloc c (st_a st) s (Some p) old new) as [[q0 a']| | |] eqn:Er; try discriminate.
   inversion Hstep; subst; clear Hstep.
-  destruct (inv_realloc c Hwf _ _ _ _ _ _ _ _ _ I Hapi Hk Er) as (_ & _ & H). simpl.
+  destruct (inv_realloc c Hwf _ _ _ _ _ _ _ _ _ I Hapi Hk Er) as (_ & _ & H & _). simpl.
   apply (H p q eq_refl eq_refl).
 Qed.
 
